@@ -17,9 +17,9 @@ YZ = 'yaql.standard_library.yaqlized'
 DYN_ATTR = {'builtins.getattr', 'builtins.setattr', 'builtins.delattr',
             'builtins.hasattr'}
 FORBIDDEN_CALLS = {
-    'builtins.vars', 'builtins.dir', 'builtins.eval', 'builtins.exec',
-    'builtins.compile', 'builtins.__import__', 'builtins.globals',
-    'builtins.locals', 'builtins.open', 'builtins.input',
+    'builtins.eval', 'builtins.exec',
+    'builtins.compile', 'builtins.__import__', 'builtins.open',
+    'builtins.input',
     'builtins.breakpoint', 'builtins.memoryview',
     'operator.attrgetter', 'operator.methodcaller',
     'importlib.import_module', 'importlib.__import__',
@@ -93,12 +93,28 @@ def find_sinks(repo, uni, fi):
     for n in model.walk_shallow(fi.node):
         if isinstance(n, ast.Call):
             d = repo.resolve(fi.module, n.func, model.scope_locals(fi))
-            if d in DYN_ATTR and len(n.args) >= 2:
+            if d in ('builtins.vars', 'builtins.dir') and n.args:
+                # vars()/dir() without argument are the function's own
+                # locals; with an argument they enumerate an object
+                if is_data(env.ev(n.args[0]).tags) or not isinstance(
+                        n.args[0], ast.Name):
+                    out.append(('forbidden-call', n, '%s(%s)' % (
+                        d[9:], model.norm(n.args[0]))))
+            elif d in DYN_ATTR and len(n.args) >= 2:
                 lit = const_str(repo, fi, n.args[1])
                 if lit is None:
-                    out.append(('getattr', n, 'dynamic %s(%s, %s)' % (
-                        d[9:], model.norm(n.args[0]),
-                        model.norm(n.args[1]))))
+                    # a sink when the object or the name can come from
+                    # expression data; a fixed module/constant object
+                    # looked up by names from a constant table is not
+                    ot = env.ev(n.args[0])
+                    nt = env.ev(n.args[1])
+                    if is_data(ot.tags) or is_data(nt.tags) or \
+                            is_data(nt.c1) or not ot.tags or any(
+                                t[0] in ('selfattr', 'self', 'fresh')
+                                for t in ot.tags):
+                        out.append(('getattr', n, 'dynamic %s(%s, %s)' % (
+                            d[9:], model.norm(n.args[0]),
+                            model.norm(n.args[1]))))
                 elif lit not in PROBE_NAMES:
                     if is_data(env.ev(n.args[0]).tags):
                         out.append(('getattr-const', n,
@@ -666,6 +682,37 @@ def check_data_calls(repo, rep, uni):
     rep.floor('calls of data values examined', n, 3)
 
 
+def check_yaqlization_grants(repo, rep, uni):
+    """R07h: evaluation-time code grants yaqlization only to the very
+    object a yaqlized member returned (auto_yaqlize_result), never to its
+    class or to anything else."""
+    n = 0
+    for fi, role in uni.evaluation_time():
+        for call in model.calls_in(fi.node, shallow=True):
+            d = repo.resolve(fi.module, call.func, model.scope_locals(fi))
+            grant = d in ('yaql.yaqlization.yaqlize',
+                          'yaql.yaqlization.build_yaqlization_settings')
+            if d in ('builtins.setattr',) and len(call.args) >= 2:
+                lit = const_str(repo, fi, call.args[1])
+                grant = lit == '__yaqlization__'
+            if not grant:
+                continue
+            n += 1
+            site = '%s/grants-yaqlization' % fi.key
+            ok = fi.key == YZ + ':_auto_yaqlize' and call.args and \
+                isinstance(call.args[0], ast.Name) and \
+                call.args[0].id in fi.params()[:1]
+            rep.ob('R07h', site, ok,
+                   'evaluation-time code yaqlizes `%s`: only the result '
+                   'object of a member of an auto_yaqlize_result object may '
+                   'be yaqlized during evaluation (and only that object -- '
+                   'not its class, which would expose every other instance '
+                   'in the data)' % (model.norm(call.args[0])
+                                     if call.args else '?'),
+                   loc=fi.module.loc(call), construct=model.norm(call))
+    rep.floor('yaqlization grants in evaluation-time code', n, 1)
+
+
 # -- R07g ----------------------------------------------------------------------
 def check_side_doors(repo, rep):
     sysm = repo.module('yaql.standard_library.system')
@@ -750,6 +797,8 @@ def run(repo, rep):
              'False for objects without settings before any accept')
     rep.rule('R07f', 'CALLS-OF-DATA: values that come from expression data '
              'are called only at the listed sites')
+    rep.rule('R07h', 'YAQLIZATION-GRANTS: during evaluation only '
+             '_auto_yaqlize may yaqlize, and only its own `value` object')
     rep.rule('R07g', 'side doors: call() filters keyword names; property '
              'fallback has a constant prefix; keyword tokens cannot start '
              'with __')
@@ -827,6 +876,7 @@ def run(repo, rep):
     check_validate_name(repo, rep)
     check_yaqlized_type(repo, rep)
     check_data_calls(repo, rep, uni)
+    check_yaqlization_grants(repo, rep, uni)
     check_side_doors(repo, rep)
     rep.count(functions_scanned=nfun, sinks_found=nsinks,
               overloads=len(uni.reg.overloads))
